@@ -37,3 +37,19 @@ register('C11', 'proof',
          assumptions=['payload record shapes of contracts/shapes.py REC_KEYS (checked at run time in the thorough tier)',
                       'floats treated as reals (times are only compared)',
                       'time.monotonic() is non-decreasing along one execution'])
+register('C01', 'other',
+         'Necessary conditions only (per instance, per call): the guards of the election are proved on the real source - '
+         'get_master_identifiers returns exactly the Masters declared by the instances seen RUNNING, check_master is true '
+         'iff these instances declare one and the same Master and none is without Master, update_instance_state resets '
+         'the Master when it leaves RUNNING, forgets the declaration of a STOPPED / ISOLATED peer (fresh StateModes) and '
+         'leaves the rest of the local view untouched, get_stable_running_identifiers is the RUNNING set of a peer iff all '
+         'the states it publishes are stable. Agreement between instances is NOT proved (property of N interleaved FSMs).',
+         not_decided=['agreement / convergence over schedules of N instances (no per-call contract expresses it)',
+                      'select_master: the contract transcribed from the rule (contracts/pending_c01_select_master.txt) '
+                      'is undecided within the solver budget and is not part of this check; its expected safe:KeyError '
+                      '(Appendix A24) is therefore not reported by this check',
+                      'evaluate_stability / ElectionState.next guards, Master-only automatic actions (C01.5) - FSM agent'],
+         assumptions=['rely condition on peers: a publication is an atomic snapshot of a state satisfying the same '
+                      'per-instance contracts; FIFO per sender',
+                      'structural validity of the per-instance maps (valid_structure / distinct_entries, contracts/c07.py)',
+                      'call sites of check_master come after _OnState._check_consistence (local instance seen RUNNING)'])
